@@ -416,7 +416,8 @@ def _explore(out, tier, seed, facts, replay):
                 continue
             for a in AGGS:
                 for cls_ in (verif.metric.Obs, verif.metric.Fcst):
-                    m = cls_()
+                    # as the obs/fcst output builds them: the statistic of one field over the cases where both are present
+                    m = verif.metric.FromField(verif.field.Obs(), aux=verif.field.Fcst()) if cls_ is verif.metric.Obs else verif.metric.FromField(verif.field.Fcst(), aux=verif.field.Obs())
                     m.aggregator = aggs[a]
                     nf += 1
                     try:
